@@ -136,7 +136,7 @@ pub fn gen(r: &mut Rng, _tier: &str, _i: usize, stats: &mut BTreeMap<String, u64
     let sp_pct = *r.pick(&[0usize, 30]);
     let (text, _) = render_gen(&c, &t, true, r, sp_pct);
     let pos = outside_braces(&text);
-    let kind = r.below(6);
+    let kind = r.below(7);
     let mut damaged = text.clone();
     let mut kname = "none";
     match kind {
@@ -191,6 +191,38 @@ pub fn gen(r: &mut Rng, _tier: &str, _i: usize, stats: &mut BTreeMap<String, u64
                     damaged.push_str(&bins[r.below(bins.len())].name);
                     kname = "extra_operand_trailing_op";
                 }
+            }
+        }
+        6 => {
+            // a literal or variable directly followed by a parenthesised group that STARTS with a binary
+            // operator: `2(*3)`, `{x} (/ 4 ^ 2)` - operand and operator counts agree, the shape
+            // "operand then `(`" is what must be refused
+            let cands: Vec<usize> = pos
+                .iter()
+                .copied()
+                .filter(|&p| {
+                    p > 0 && {
+                        let prev = text[..p].chars().last().unwrap();
+                        let next = text[p..].chars().next();
+                        let run: String = text[..p].chars().rev().take_while(|c| is_word_char(*c)).collect::<Vec<_>>().into_iter().rev().collect();
+                        let is_op_name = t.iter().any(|c| !run.is_empty() && run.ends_with(c.name.as_str()));
+                        !is_op_name && (prev.is_ascii_digit() || prev == '}') && next.map(|n| !is_word_char(n) && n != '.').unwrap_or(true)
+                    }
+                })
+                .collect();
+            let bins: Vec<&OpCfg> = t.iter().filter(|c| c.bin.is_some()).collect();
+            if !cands.is_empty() {
+                let p = *r.pick(&cands);
+                // prefer operators without a unary role (with one, `2(-3)` is "two adjacent operands")
+                let only: Vec<&&OpCfg> = bins.iter().filter(|c| !c.un).collect();
+                let o = if !only.is_empty() && r.chance(3, 4) { only[r.below(only.len())].name.clone() } else { bins[r.below(bins.len())].name.clone() };
+                let mut g = format!("{}({} {}", if r.chance(1, 3) { " " } else { "" }, o, *r.pick(&["3", "{w}", "0.5"]));
+                if r.chance(1, 3) {
+                    g.push_str(&format!(" {} 2", bins[r.below(bins.len())].name));
+                }
+                g.push(')');
+                damaged.insert_str(p, &g);
+                kname = "operand_then_group";
             }
         }
         4 => {
